@@ -32,7 +32,10 @@ pub struct Rt;
 impl Rt { #[verifier::external_body] pub fn clone(&self) -> (r: Rt) { unimplemented!() } }
 pub struct Ns;
 /// the iterator `_iter` hands out: lazily, the generator's stream from position `pos`
-pub struct GIter { pub s: Ghost<Stream>, pub pos: Ghost<nat> }
+/// (the three parameters stand for the interpreter's W, R, T, so that `BIter<_, _, _>` in the source text resolves)
+pub struct GIterP<A, B, C> { pub s: Ghost<Stream>, pub pos: Ghost<nat>, pub p: Ghost<(A, B, C)> }
+pub type GIter = GIterP<(), (), ()>;
+pub type BIter<A, B, C> = Box<GIterP<A, B, C>>;
 impl XGenerator {
     pub open spec fn stream(&self) -> Stream { self.s@ }
     #[verifier::external_body]
@@ -40,10 +43,10 @@ impl XGenerator {
 }
 /// Vec<XResult<Val>> as its element list
 pub struct Vec<X> { pub v: Ghost<Seq<X>> }
-impl GIter {
+impl<A, B, C> GIterP<A, B, C> {
     /// `Iterator::collect::<Vec<_>>()`: the remaining elements, ALL of them -- terminates only on a finite stream
     #[verifier::external_body]
-    pub fn collect<C: VxFromStream>(self) -> (r: C)
+    pub fn collect<X: VxFromStream>(self) -> (r: X)
         requires self.s@.slen is Some,
         ensures r.as_stream() == self.s@,
     { unimplemented!() }
